@@ -768,8 +768,8 @@ Proof.
   destruct (apply_verdict (it_v1 it) 354) as [c|]; [|discriminate]. apply N.eqb_eq in H4. subst c.
   rewrite is_close_354. cbn [N.eqb Pos.eqb]. unfold get_message_data.
   destruct (session_HAVE_DATA st it) as [[e2 evs] oc]. destruct oc as [c|].
-  - unfold finish, mk. cbn [r_exc r_replies r_events r_st]. destruct (close_exc c); cbn [snd o_replies o_events app]; eauto.
-  - unfold finish, mk. cbn [r_exc r_replies r_events r_st snd o_replies o_events app]. eauto.
+  - unfold finish, mk. cbn [r_exc r_fam r_replies r_events r_st]. destruct (close_exc c); cbn [snd o_replies o_events app]; eauto.
+  - unfold finish, mkx. cbn [r_exc r_fam r_replies r_events r_st]. destruct (have_data_fam st it); cbn [snd o_replies o_events app]; eauto.
 Qed.
 
 (* ... and when it does not, the message fields of the item are not looked at *)
